@@ -70,6 +70,9 @@ func c03r1(c *Ctx) {
 		fn, cv := lc.Fn, lc.Call
 		name := calleeName(cv.Common())
 		region := pfIterRegion(cv, lc.Loop.Head)
+		// alternative phase calls (`if delegated { … = remote(…) } else { … = local(…) }`) deliver
+		// into shared variables: everything below is judged on the paths that executed this call
+		av := p.pfAfter(cv)
 
 		// (a) the next iteration starts only after err == nil and a zero probing result
 		o := c.Ob(fn, "loop-continue:"+name, cv, "the next phase is reconciled only after this phase returned nil error and a zero ProbingResult")
@@ -81,10 +84,10 @@ func c03r1(c *Ctx) {
 			var bad []string
 			for _, t := range tails {
 				fs := p.FactsOnEdge(t, lc.Loop.Head)
-				if p.errOfCall(fs, cv) != yesTri {
+				if av.errOf(fs) != yesTri {
 					bad = append(bad, fmt.Sprintf("back edge from block %d (%s): the call's error is not known to be nil", t.Index, p.blockPos(t)))
 				}
-				if p.pfIsZeroFact(fs, cv, lc.ProbeIdx) != yesTri {
+				if av.isZero(fs, lc.ProbeIdx) != yesTri {
 					bad = append(bad, fmt.Sprintf("back edge from block %d (%s): the call's ProbingResult is not known to be zero (a later phase is reconciled although this one failed its probes)", t.Index, p.blockPos(t)))
 				}
 			}
@@ -110,12 +113,12 @@ func c03r1(c *Ctx) {
 				n++
 				at := p.IPos(rc.Ret)
 				switch {
-				case p.errOfCall(rc.Facts, cv) == noTri:
+				case av.errOf(rc.Facts) == noTri:
 					if p.pfPossiblyNilUnder(rc.Results[eiFn], rc.Facts) {
 						bad = append(bad, "return at "+at+" may return a nil error although the phase call failed (error swallowed)")
 					}
-				case p.errOfCall(rc.Facts, cv) == yesTri && p.pfIsZeroFact(rc.Facts, cv, lc.ProbeIdx) == noTri:
-					if !p.pfIsResultOf(rc.Results[piFn], cv, lc.ProbeIdx) {
+				case av.errOf(rc.Facts) == yesTri && av.isZero(rc.Facts, lc.ProbeIdx) == noTri:
+					if !av.isResult(rc.Results[piFn], lc.ProbeIdx) {
 						bad = append(bad, "return at "+at+" on the failing-probe path does not return the ProbingResult of the failing call (found "+p.describe(rc.Results[piFn])+")")
 					}
 				default:
@@ -633,16 +636,13 @@ func pfAnyCalleeReadsField(fn *ssa.Function, name string) bool {
 // ---------------------------------------------------------------------------------------------
 // R4
 
-// c03AvailableCondOf: v is FindStatusCondition(X.GetConditions(), "Available"); returns X.
+// c03AvailableCondOf: v is FindStatusCondition(X.GetConditions(), "Available") — or an equivalent
+// spelling of that lookup (pfFoundCondition); returns X.
 func (p *Program) c03AvailableCondOf(v ssa.Value) (ssa.Value, bool) {
-	call, _ := asCall(v)
-	if call == nil || !isCallTo(call.Common(), pkgMeta+".FindStatusCondition") || len(call.Common().Args) != 2 {
+	_, conds, typ, ok := p.pfFoundCondition(v)
+	if !ok || typ != "Available" {
 		return nil, false
 	}
-	if !isStringConst(call.Common().Args[1], "Available") {
-		return nil, false
-	}
-	conds := call.Common().Args[0]
 	if u, ok := conds.(*ssa.UnOp); ok && u.Op == token.MUL {
 		conds = u.X
 	}
@@ -671,18 +671,27 @@ func c03r4(c *Ctx) {
 		}
 		n := 0
 		// the status decision tree may live in an extracted helper: its returns are judged in place
-		for _, rc := range p.mwExpandResult(p.pfReturnCases(fn), piFn) {
+		// … and a result collected in one local and returned once is judged per reaching definition
+		for _, cc := range p.pfSplitCollected(p.mwExpandResult(p.pfReturnCases(fn), piFn), piFn) {
+			rc := cc.ReturnCase
 			if !p.pfPossiblyNilUnder(rc.Results[eiFn], rc.Facts) {
 				continue
 			}
 			zero := false
-			for _, pv := range p.possibleValues(rc.Results[piFn]) {
-				if pfIsZeroConst(pv) {
-					zero = true
-				} else if _, _, isLit := compositeFields(pv); !isLit {
-					zero = true // not a literal we can see is non-zero: treat as possibly zero
-				} else if f, _, _ := compositeFields(pv); f["PhaseName"] == nil && f["FailedProbes"] == nil {
-					zero = true
+			switch cc.Written {
+			case pfMaybeWritten:
+				zero = true // some paths through this edge leave the collected result untouched
+			case pfAlwaysWritten:
+				zero = !cc.Must["PhaseName"] && !cc.Must["FailedProbes"]
+			default:
+				for _, pv := range p.possibleValues(rc.Results[piFn]) {
+					if pfIsZeroConst(pv) {
+						zero = true
+					} else if _, _, isLit := compositeFields(pv); !isLit {
+						zero = true // not a literal we can see is non-zero: treat as possibly zero
+					} else if f, _, _ := compositeFields(pv); f["PhaseName"] == nil && f["FailedProbes"] == nil {
+						zero = true
+					}
 				}
 			}
 			if !zero {
@@ -692,7 +701,7 @@ func c03r4(c *Ctx) {
 			// class-less no-op
 			classless := false
 			for _, f := range rc.Facts {
-				if x, nonEmptyWhenTrue, ok := lenCmp(f.Cond); ok && f.Pol != nonEmptyWhenTrue {
+				if x, nonEmptyWhenTrue, ok := pfEmptyCmp(f.Cond); ok && f.Pol != nonEmptyWhenTrue {
 					if root, ok := p.pfFieldLoad(x, "Class"); ok && p.pfRootValue(root) == ssa.Value(phaseParam) {
 						classless = true
 					}
@@ -789,7 +798,7 @@ func c03ClasslessUnreachable(c *Ctx, o *Obligation, impl *ssa.Function) {
 			}
 			guarded := false
 			for _, f := range p.FactsAt(cc.Instr.Block()) {
-				if x, nonEmptyWhenTrue, ok := lenCmp(f.Cond); ok && f.Pol == nonEmptyWhenTrue {
+				if x, nonEmptyWhenTrue, ok := pfEmptyCmp(f.Cond); ok && f.Pol == nonEmptyWhenTrue {
 					if root, ok := p.pfFieldLoad(x, "Class"); ok && p.pfRootValue(root) == argRoot {
 						guarded = true
 					}
